@@ -31,6 +31,19 @@ Definition wf_colour (c : colour) : bool :=
 Definition wf_elem (e : element) : bool :=
   displayable (eg e) && wf_colour (fg (ea e)) && wf_colour (bg (ea e)).
 
+(* format effectors written as elements (a newline in a string, a tab, ...):
+   they show no glyph; the oracle follows them, the terminal-based theorems do
+   not cover them *)
+Definition format_effector (g : glyph) : bool :=
+  ((g0 g =? 8) || (g0 g =? 9) || (g0 g =? 10) || (g0 g =? 13)) &&
+  (if cs_eqb (gcs g) CsUtf8 then (g1 g =? 0) && (g2 g =? 0) else true).
+
+Definition wf_elem_c (e : element) : bool :=
+  (displayable (eg e) || format_effector (eg e)) && wf_colour (fg (ea e)) && wf_colour (bg (ea e)).
+
+Definition visible (es : list element) : list element :=
+  filter (fun e => negb (is_control_glyph (eg e))) es.
+
 Definition wf_title (t : list byte) : bool :=
   forallb (fun b => (32 <=? b) && (b <=? 255) && negb (b =? 127) && negb (b =? 156)) t.
 
@@ -181,14 +194,21 @@ Definition oracle_step (cfg : vtcfg) (beh : behaviour) (adopt : pt -> pt -> pt)
       let f :=
         match op_elements op with
         | Some es =>
-            let f := fail_if (check_text && negb (cells_match tr es)) 102 i f in
+            let f := fail_if (check_text && negb (cells_match tr (visible es))) 102 i f in
             let f := fail_if (check_text &&
                               negb (bytes_eqb (flat_map (fun pc => c_bytes (snd pc)) tr)
-                                              (to_string es))) 1701 i f in
+                                              (to_string (visible es)))) 1701 i f in
             f
         | None => fail_if (negb (match tr with [] => true | _ => false end)) 103 i f
         end in
-      let '(pos_ok, expect') := positions_ok (fst (vsize v')) (os_expect s) tr in
+      (* a write containing a control character moves the cursor in its own
+         way: no placement expectation through or after it *)
+      let has_ctl := match op_elements op with
+                     | Some es => existsb (fun e => is_control_glyph (eg e)) es
+                     | None => false
+                     end in
+      let '(pos_ok, expect') :=
+        if has_ctl then (true, None) else positions_ok (fst (vsize v')) (os_expect s) tr in
       let f := fail_if (negb pos_ok) 201 i f in
       let expect'' :=
         match op with
@@ -297,8 +317,8 @@ Definition adopt_home (c sz : pt) : pt := (0, 0).
    inside the declared size, title without control bytes) *)
 Definition wf_op_b (sz : pt) (o : op) : bool :=
   match o with
-  | WElem e | WRaw e => wf_elem e
-  | WStr s => forallb wf_elem s
+  | WElem e | WRaw e => wf_elem_c e
+  | WStr s => forallb wf_elem_c s
   | Move p => inside p sz
   | Title t => wf_title t
   | _ => true
